@@ -130,10 +130,12 @@ def run(tier):
     run = Run(PROP, tier, 'proof')
     spec_selfcheck()
     h = build(tier)
+    msyn = h.monomorphise(['f32', 'f64'], bound='<S: BaseFloat>', method_syntax='only', soft=True)
     S, inv, meta = facts.extract(PROP, h.src())
-    report_dropped(run, meta)
+    report_dropped(run, meta, h)
     run_specs(run, S, h, custom={'invert': check_invert})
     run.floor('roots', len(run.roots), len(h.specs))
+    run.notes['monomorphic_method_syntax_roots'] = len([n_ for n_ in msyn if n_ in run.roots])
     return run.finish(
         explanation='determinant() (n=2,3,4; the 4x4 through det_sub_proc_unsafe and the flat [S;16] view) is shown ring-equal to the Leibniz sum; invert() must have the shape Ite(det == 0 exactly, None, Some(N)) with every N[c][r] field-equal to adj(M)[c][r]/det(M) where the adjugate is built from the cofactor definition; transpose_self/transpose, swap_rows/swap_columns for every index pair, swap_elements for every in-range pair of positions, replace_col and truncate_n are checked as exact permutations of the named leaves, out-of-range indices must panic on every path; inverse_transform of Matrix3 (2-D, 3-D) and Matrix4 satisfies the same inverse specification. Multiplicativity, transpose invariance and M*adj(M) = det(M) I are verified on the spec side.',
         trusted_base=['rustc nightly type checking / trait resolution / MIR construction', 'mirsum abstract interpreter: memory/view model (transmute views, ptr::swap, mem::replace, get_unchecked with concrete in-range indices)', 'rules/algebra.py normal forms and exact polynomial division', 'field semantics of + - * / on the abstract scalar'],
